@@ -4,7 +4,7 @@
    Statements only; every proof is `exact <lemma of Proofs/DhcpServer.v>`. *)
 From Erbium Require Import Lib.Base Model.DhcpCodec Model.DhcpOptVal Model.DhcpPolicy Model.DhcpAddrs
   Model.DhcpPool Model.DhcpHandler Model.Frame Model.DhcpServer.
-From Erbium Require Import Proofs.DhcpPool Proofs.DhcpPoolCrash Proofs.DhcpServer Proofs.DhcpServerWf Proofs.DhcpServerOpts.
+From Erbium Require Import Proofs.DhcpPool Proofs.DhcpPoolCrash Proofs.DhcpServer Proofs.DhcpServerWf Proofs.DhcpServerOpts Proofs.DhcpServerRestart.
 
 (* S01 -- totality.  Full statement wanted:
      forall cfg st t1 t2 e b ans, is_panic (server_step cfg st t1 t2 e b ans) = false.
@@ -155,6 +155,58 @@ Check S04_no_double_allocation : forall cfg M h st now st' fs,
               forall a b x t, a <> b -> ~ (holds log a x t /\ holds log b x t).
 Print Assumptions S04_no_double_allocation.
 
+(* S05 -- C18: "closing and reopening ... the server then behaves exactly as an uninterrupted
+   server would: replies(run(h1); reopen; run(h2)) = replies(run(h1 ++ h2))".
+   A restart keeps the lease rows (TRUSTED: SQLite durability -- every INSERT is committed
+   before the reply is built; checked on the real store by the Restart and Kill events of the
+   correspondence) and empties the in-memory set of server identifiers (Model/DhcpServer.v
+   `restart`).  For single-homed use -- every REQUEST of h2 names no server or the address of
+   the interface it arrives on -- the frames and the final rows are the same. *)
+Theorem S05_restart_transparent : forall cfg st h1 h2,
+  Forall names_own_address h2 ->
+  option_map view (server_run cfg st (h1 ++ h2)) = option_map view (run_restart cfg st h1 h2).
+Proof. exact restart_transparent. Qed.
+Check S05_restart_transparent : forall cfg st h1 h2,
+  Forall names_own_address h2 ->
+  option_map view (server_run cfg st (h1 ++ h2)) = option_map view (run_restart cfg st h1 h2).
+Print Assumptions S05_restart_transparent.
+
+(* Without the hypothesis the statement is false: a server with two interfaces answers a
+   DISCOVER on 192.0.2.1; a REQUEST arriving on 198.51.100.1 that names 192.0.2.1 is answered
+   by the uninterrupted server (it remembers having used that identifier) and dropped as
+   "for another server" after a restart (witness: the mh_ definitions of Proofs/DhcpServerRestart.v). *)
+Theorem S05_multihomed_refuted :
+  exists cfg st h1 h2,
+    option_map view (server_run cfg st (h1 ++ h2)) <> option_map view (run_restart cfg st h1 h2).
+Proof. exact multihomed_refuted. Qed.
+Check S05_multihomed_refuted :
+  exists cfg st h1 h2,
+    option_map view (server_run cfg st (h1 ++ h2)) <> option_map view (run_restart cfg st h1 h2).
+Print Assumptions S05_multihomed_refuted.
+
+(* S06 -- a kill between the INSERT and the send, followed by a restart: the row (if any) is
+   written, no frame leaves, the identifier set is lost (server_run_k).  S04 survives: the
+   lease-store view of such a history (pool_history_k: a killed step counts as a lost reply)
+   is admitted by the lease-store model, ends in the server's rows, and no two clients hold
+   one address in its grant log -- the store contains every lease whose reply had been
+   produced, and a lease written without a reply only ever makes the server more careful. *)
+Theorem S06_kill_keeps_no_double_allocation : forall cfg M h st now st' fs,
+  sc_max cfg = M -> sc_min cfg <= sc_max cfg ->
+  Inv (fst st) -> RowsOK M now (fst st) ->
+  wf_times M now (map fst h) = true ->
+  server_run_k cfg st h = Some (st', fs) ->
+  exists log, run_lossy_from (fst st, []) (pool_history_k cfg st h) = Some (fst st', log) /\
+              forall a b x t, a <> b -> ~ (holds log a x t /\ holds log b x t).
+Proof. exact server_k_no_double. Qed.
+Check S06_kill_keeps_no_double_allocation : forall cfg M h st now st' fs,
+  sc_max cfg = M -> sc_min cfg <= sc_max cfg ->
+  Inv (fst st) -> RowsOK M now (fst st) ->
+  wf_times M now (map fst h) = true ->
+  server_run_k cfg st h = Some (st', fs) ->
+  exists log, run_lossy_from (fst st, []) (pool_history_k cfg st h) = Some (fst st', log) /\
+              forall a b x t, a <> b -> ~ (holds log a x t /\ holds log b x t).
+Print Assumptions S06_kill_keeps_no_double_allocation.
+
 (* ---- the hypotheses are satisfiable: a /24, a DISCOVER with the broadcast bit, then the
    REQUEST naming the offered address, then a DISCOVER of another client ------------- *)
 Definition exs_g : config :=
@@ -199,3 +251,21 @@ Example S_example_history :
   | None => false
   end = true.
 Proof. split; vm_compute; reflexivity. Qed.
+
+(* S05: the example history is single-homed (its REQUEST names 192.0.2.1, the receiving
+   address), and a restart after the first datagram changes neither frames nor rows;
+   S06: the same history with the REQUEST killed after its INSERT. *)
+Example S_example_restart :
+  match server_run exs_cfg ([], []) exs_history,
+        run_restart exs_cfg ([], []) (firstn 1 exs_history) (skipn 1 exs_history) with
+  | Some a, Some b => (lenN (snd a) =? 3) && (lenN (snd b) =? 3) && (lenN (fst (fst b)) =? 2)
+  | _, _ => false
+  end = true.
+Proof. vm_compute. reflexivity. Qed.
+Example S_example_kill :
+  match server_run_k exs_cfg ([], []) (combine exs_history [false; true; false; false]) with
+  | Some (st', fs) => (lenN fs =? 2) && (lenN (fst st') =? 2)
+                      && (lenN (pool_history_k exs_cfg ([], []) (combine exs_history [false; true; false; false])) =? 3)
+  | None => false
+  end = true.
+Proof. vm_compute. reflexivity. Qed.
